@@ -6,6 +6,7 @@ import MiniMcmcVerif.Props.C08
 import MiniMcmcVerif.Props.C09
 import MiniMcmcVerif.Props.C06Involutive
 import MiniMcmcVerif.Props.C05Stale
+import MiniMcmcVerif.Props.C06Measure
 
 /-!
 # C06 — long-run averages converge to the target's expectations
@@ -22,6 +23,10 @@ together:
   leaves every non-negative weight invariant on a finite phase space, jointly and for the position marginal
   (`HMC.involutive_mh_invariant`, `HMC.hmc_verlet_invariant`, `HMC.hmc_position_marginal_invariant`);
 * the NUTS candidate is uniform among the admissible points of a subtree (`NUTS.selection_uniform`);
+* under a uniform draw the coded comparisons realise the required probabilities (`Props/C06Measure.lean`): the HMC test
+  `ln u ≤ ΔH` accepts with probability `min 1 (exp ΔH)` (`HMC.hmc_accept_probability`), a NUTS test `u < r` succeeds with
+  probability `r` clipped to `[0,1]` (`NUTS.uniform_lt_probability`), and `−log U` has the Exp(1) tail, so the coded slice
+  level `joint₀ − Exp(1)` has the law of `log(U·exp(joint₀))` (`NUTS.neg_log_uniform_tail`);
 * `run` returns the iterates after burn-in (`Run.runChain_spec`), chains use distinct streams
   (`Seeds.mh_chain_streams_distinct`).
 
